@@ -634,7 +634,7 @@ def fragmented_layout(chk, capellambse, data, aird, lseed: int, li: int, quick: 
                 d = xmlenc.doc_diff(pre[f], post, unordered_first=PRIO)
                 if d:
                     probs.append(("content", f"{f}: an untouched load/save changed the file's information: " + "; ".join(d[:2])))
-                if len(bytes1[f]) <= (30_000 if quick else 60_000) and len(frag_fcases) < (14 if quick else 150):
+                if len(bytes1[f]) <= (30_000 if quick else 60_000) and len(frag_fcases) < (14 if quick else 60):
                     b, r, a = xmlenc.enc_doc(post)
                     frag_fcases.append(([pathlib.PurePosixPath(f).suffix, b, r, a], bytes1[f]))
         frag_stats["files_with_placeholder_only_namespace"] += ph_only_files
